@@ -37,10 +37,41 @@ extern "C" fn h_siginfo(sig: c_int, info: *mut siginfo_t, ctx: *mut c_void) {
         // every send is a sigqueue: the kernel dropped the siginfo (pending-signal quota of the user exhausted)
         NO_INFO.fetch_add(1, Ordering::SeqCst);
     }
+    if SWAPPED.load(Ordering::SeqCst) {
+        // this handler was replaced before the library took the signal over
+        STALE_CALLS.fetch_add(1, Ordering::SeqCst);
+    }
     let seq = crate::sig::si_value(unsafe { &*info }) as u64;
     H_INFO[(seq as usize) % TAB].store(info as usize, Ordering::SeqCst);
     H_CTX[(seq as usize) % TAB].store(ctx as usize, Ordering::SeqCst);
     evlog::log(kind::PREV, sig as u64, seq);
+}
+
+/// Set when the test itself replaced the foreign handler (after the library had looked at the old one, before it took
+/// the signal over); from then on only the replacement may be chained.
+static SWAPPED: AtomicBool = AtomicBool::new(false);
+static STALE_CALLS: AtomicU64 = AtomicU64::new(0);
+
+/// The replacement: same logging as `h_siginfo`.
+extern "C" fn h_second(sig: c_int, info: *mut siginfo_t, ctx: *mut c_void) {
+    let ok = !info.is_null() && (info as usize) % 8 == 0 && (info as usize) > 4096 && unsafe { (*info).si_signo } == sig;
+    if !ok {
+        H_BAD.fetch_add(1, Ordering::SeqCst);
+        evlog::log(kind::PREV, sig as u64, u64::MAX - 2);
+        return;
+    }
+    let seq = crate::sig::si_value(unsafe { &*info }) as u64;
+    H_INFO[(seq as usize) % TAB].store(info as usize, Ordering::SeqCst);
+    H_CTX[(seq as usize) % TAB].store(ctx as usize, Ordering::SeqCst);
+    evlog::log(kind::PREV, sig as u64, seq);
+}
+
+static SWAP_SIG: AtomicU64 = AtomicU64::new(0);
+
+fn swap_prev(_s: u32, _a: usize, _b: usize) {
+    let sig = SWAP_SIG.load(Ordering::SeqCst) as c_int;
+    unsafe { crate::sig::install_raw(sig, h_second as usize, libc::SA_RESTART | libc::SA_SIGINFO) };
+    SWAPPED.store(true, Ordering::SeqCst);
 }
 
 extern "C" fn h_plain(sig: c_int) {
@@ -78,6 +109,12 @@ struct Trial {
     /// the other signal (which has a real handler of its own) was taken over by the library BEFORE this trial's first
     /// registration: its handler is what the race fallback still holds and must never be run for this signal
     other_first: bool,
+    /// the foreign handler is replaced by another one after the library has looked at the disposition and before it takes
+    /// the signal over (as another thread's sigaction() could): the handler in place at the take-over is the one to chain
+    swap_prev: bool,
+    /// the registering thread is held right after its sigaction(); another thread starts the first registration of another
+    /// signal (which has a handler of its own); then one delivery of this signal arrives on the registering thread
+    paused_other: bool,
     /// non-zero: instead of raising at the site itself, single-step from that arrival and raise at the k-th instruction
     /// after it (`istep`); raise_site 0 = step from the call of register itself
     step_k: u64,
@@ -127,6 +164,62 @@ fn child(t: &Trial, fd: i32) -> i32 {
     }
     director::set_rule(site::REG_AFTER_SIGACTION, RuleSpec { mode: mode::CALL, callf: Some(at_sigaction), class_mask: class::MAIN, nth: 1, ..Default::default() });
     // note: CALL at REG_AFTER_SIGACTION and a RAISE there exclude each other; RAISE wins below
+    if t.swap_prev {
+        SWAP_SIG.store(sig as u64, Ordering::SeqCst);
+        director::set_rule(site::REG_AFTER_FALLBACK, RuleSpec { mode: mode::CALL, callf: Some(swap_prev), class_mask: class::MAIN, nth: 1, ..Default::default() });
+    }
+    let mut controller = None;
+    if t.paused_other {
+        director::set_rule(site::REG_AFTER_SIGACTION, RuleSpec { mode: mode::PAUSE, class_mask: class::MAIN, nth: 1, arg: 0, ..Default::default() });
+        let main_pth = unsafe { libc::pthread_self() } as usize;
+        controller = Some(std::thread::spawn(move || {
+            crate::set_thread(30, class::KILLER);
+            let t0 = crate::now_ms();
+            while director::parked(0) != Some(1) {
+                std::thread::yield_now();
+                if crate::now_ms() - t0 > 5000 {
+                    return None;
+                }
+            }
+            // the other thread: first registration of the other signal; it must wait for the registry lock the paused thread holds
+            let b_ktid = Arc::new(std::sync::atomic::AtomicI32::new(0));
+            let bk = b_ktid.clone();
+            let b_done = Arc::new(AtomicBool::new(false));
+            let bd = b_done.clone();
+            let bj = std::thread::spawn(move || {
+                crate::set_thread(20, class::MUTATOR);
+                bk.store(crate::sig::gettid(), Ordering::SeqCst);
+                let id = unsafe { signal_hook_registry::register(other, || ()) };
+                director::lib_exit();
+                bd.store(true, Ordering::SeqCst);
+                id.is_ok()
+            });
+            let t0 = crate::now_ms();
+            loop {
+                let kt = b_ktid.load(Ordering::SeqCst);
+                let zero = || 0u64;
+                if b_done.load(Ordering::SeqCst) || (kt != 0 && crate::probe::stably_blocked_in(kt, &[202], None, 3, 2, &zero)) {
+                    break;
+                }
+                if crate::now_ms() - t0 > 5000 {
+                    break;
+                }
+                std::thread::yield_now();
+            }
+            // one delivery to the registering thread, which is inside the window between sigaction() and publication
+            let seq = pool::SEQ.fetch_add(1, Ordering::SeqCst);
+            evlog::log(kind::SEND, sig as u64, seq);
+            crate::sig::queue_thread(main_pth as libc::pthread_t, sig, seq as usize);
+            let t0 = crate::now_ms();
+            while director::dispatches() == 0 && crate::now_ms() - t0 < 2000 {
+                std::thread::yield_now();
+            }
+            std::thread::sleep(std::time::Duration::from_millis(2));
+            director::rule_off(site::REG_AFTER_SIGACTION);
+            director::open_gate(0);
+            Some(bj)
+        }));
+    }
     if t.step_k != 0 {
         crate::istep::install();
         STEP_SIG.store(sig as u64, Ordering::SeqCst);
@@ -232,6 +325,13 @@ fn child(t: &Trial, fd: i32) -> i32 {
     evlog::log(kind::RET, 1, sig as u64);
     director::lib_exit();
     director::clear_rules();
+    if let Some(c) = controller {
+        if let Ok(Some(bj)) = c.join() {
+            let _ = bj.join();
+        } else {
+            wr(fd, "BAD the registering thread was not found paused after its sigaction()\n");
+        }
+    }
     let id1 = match id1 {
         Ok(id) => id,
         Err(e) => {
@@ -267,7 +367,7 @@ fn child(t: &Trial, fd: i32) -> i32 {
     pool::clear_targets();
     // ---- later phases
     // (a) another signal is registered for the first time (overwrites the race fallback), then all actions removed
-    if !t.concurrent_other && !t.other_first {
+    if !t.concurrent_other && !t.other_first && !t.paused_other {
         let _ = unsafe { signal_hook_registry::register(other, || ()) };
     }
     evlog::log(kind::MARK, 11, 0);
@@ -415,6 +515,15 @@ fn child(t: &Trial, fd: i32) -> i32 {
             }
         }
     }
+    if t.swap_prev {
+        if !SWAPPED.load(Ordering::SeqCst) {
+            bad.push("the replacement of the foreign handler did not take place (site not passed)".into());
+        }
+        let st = STALE_CALLS.load(Ordering::SeqCst);
+        if st != 0 {
+            bad.push(format!("a handler that had been replaced before the library took the signal over was called {} times (stale previous handler chained)", st));
+        }
+    }
     if other_prev != 1 {
         bad.push(format!("the other signal's own previous handler ran {} times for one delivery", other_prev));
     }
@@ -452,7 +561,7 @@ pub fn main(args: &[String]) -> i32 {
                     trials.push(t);
                 }
             };
-            let base = Trial { prev: *prev, sig: *sig, raise_site: 0, occ: 1, bombard: false, delay_after_sigaction: false, concurrent_other: false, other_first: false, step_k: 0 };
+            let base = Trial { prev: *prev, sig: *sig, raise_site: 0, occ: 1, bombard: false, delay_after_sigaction: false, concurrent_other: false, other_first: false, swap_prev: false, paused_other: false, step_k: 0 };
             if real {
                 for s in pre_sites.iter() {
                     push(Trial { raise_site: *s, ..base.clone() }, &mut trials);
@@ -479,6 +588,12 @@ pub fn main(args: &[String]) -> i32 {
             push(Trial { other_first: true, raise_site: site::REG_BEFORE_PUBLISH, ..base.clone() }, &mut trials);
             push(Trial { other_first: true, raise_site: site::HL_B_FLIP, occ: 2, ..base.clone() }, &mut trials);
             push(Trial { other_first: true, bombard: true, delay_after_sigaction: true, ..base.clone() }, &mut trials);
+            if *prev == Prev::Siginfo {
+                push(Trial { swap_prev: true, ..base.clone() }, &mut trials);
+            }
+            if real {
+                push(Trial { paused_other: true, ..base.clone() }, &mut trials);
+            }
         }
     }
     if crate::arg_str(args, "--mode", "") == "istep" {
@@ -495,7 +610,7 @@ pub fn main(args: &[String]) -> i32 {
             let tc = t.clone();
             let res = fork::probe(60_000, false, move |fd| child(&tc, fd));
             n += 1;
-            let label = format!("prev={:?} signal={} raise_at={}#{} bombard={} delay={} concurrent_other={} other_first={}", t.prev, t.sig, if t.raise_site == 0 { "-" } else { director::site_name(t.raise_site) }, t.occ, t.bombard, t.delay_after_sigaction, t.concurrent_other, t.other_first);
+            let label = format!("prev={:?} signal={} raise_at={}#{} bombard={} delay={} concurrent_other={} other_first={} swap_prev={} paused_other={}", t.prev, t.sig, if t.raise_site == 0 { "-" } else { director::site_name(t.raise_site) }, t.occ, t.bombard, t.delay_after_sigaction, t.concurrent_other, t.other_first, t.swap_prev, t.paused_other);
             match &res.end {
                 End::Exit(0) if res.out.contains("DONE") || res.out.contains("BAD") => {}
                 End::Timeout => {
@@ -516,7 +631,7 @@ pub fn main(args: &[String]) -> i32 {
                     else if l.contains("times") && l.contains("previous") { "prev-called-wrong-count" }
                     else if l.contains("before the previous") || l.contains("ran after") { "prev-not-first" }
                     else if l.contains("info") || l.contains("context") || l.contains("garbage") { "prev-wrong-arguments" }
-                    else if l.contains("default/ignore") { "default-or-ignore-called" } else { "chain-misc" };
+                    else if l.contains("default/ignore") { "default-or-ignore-called" } else if l.contains("stale previous") { "stale-prev-chained" } else { "chain-misc" };
                 bad.push((s.into(), format!("{} || {}", &l[4..], label)));
             }
             if let Some(st) = res.out.lines().find(|l| l.starts_with("STATS ")) {
@@ -650,7 +765,7 @@ fn istep_main(args: &[String], seed: u64, sigs: &[c_int]) -> i32 {
                         }
                     }
                     let sig = sigs[((idx + pi as u64 + seed) % sigs.len() as u64) as usize];
-                    let t = Trial { prev: *prev, sig, raise_site: w.0, occ: w.1, bombard: false, delay_after_sigaction: false, concurrent_other: false, other_first, step_k: k };
+                    let t = Trial { prev: *prev, sig, raise_site: w.0, occ: w.1, bombard: false, delay_after_sigaction: false, concurrent_other: false, other_first, swap_prev: false, paused_other: false, step_k: k };
                     let tc = t.clone();
                     let res = fork::probe(60_000, false, move |fd| child(&tc, fd));
                     let label = format!("prev={:?} signal={} step-from={}#{} k={} other_first={}", t.prev, t.sig, if w.0 == 0 { "CALL" } else { director::site_name(w.0) }, w.1, k, other_first);
